@@ -56,7 +56,7 @@ class Conclusion(SymbolicExpression[T], ABC):
         value_str = (
             self.value._type_.__name__
             if isinstance(self.value, Variable)
-            else str(self.value)
+            else type(self.value).__name__
         )
         return f"{self.__class__.__name__}({self.var._var_._name_}, {value_str})"
 
